@@ -73,7 +73,10 @@ def gen_cases(tier, seed):
             rho = 0.0           # exactly vertically aligned endpoints
         a = [float(rng.uniform(-1e3, 1e3)), float(rng.uniform(-1e3, 1e3)), float(rng.uniform(zlo + 1, -1))]
         b = [a[0] + rho * np.cos(ph), a[1] + rho * np.sin(ph), float(rng.uniform(zlo + 1, -1))]
-        if kind.startswith("split") and rng.random() < 0.3:
+        if kind in ("split-uniform", "stack") and rng.random() < 0.12 and rho > 0:
+            b[2] = a[2]                 # endpoints at exactly the same depth (a horizontal direct ray)
+            c["cls"] = kind + ":equal-depth"
+        elif kind.startswith("split") and rng.random() < 0.3:
             # shallow endpoints a few hundred metres apart: the second solution bounces off the surface, mostly under total internal
             # reflection, so its Fresnel factors are complex numbers of modulus one
             rho = float(10 ** rng.uniform(1.3, 2.7))
@@ -235,6 +238,17 @@ def trace_decoy(case, a, b):
         pass
 
 
+def no_ray_twice(v, sols, **det):
+    """The same ray (same length, same launch and arrival direction) must not be reported as two solutions."""
+    for i in range(len(sols)):
+        for j in range(i + 1, len(sols)):
+            p, q = sols[i], sols[j]
+            same = (abs(float(p.path_length) - float(q.path_length)) <= 1e-9 * max(float(p.path_length), 1e-9)
+                    and float(np.max(np.abs(np.asarray(p.emitted_direction, float) - np.asarray(q.emitted_direction, float)))) <= 1e-9
+                    and float(np.max(np.abs(np.asarray(p.received_direction, float) - np.asarray(q.received_direction, float)))) <= 1e-9)
+            v.check(not same, "no ray is reported twice", i=i, j=j, L=float(p.path_length), n_solutions=len(sols), **det)
+
+
 def run_stack(case, v):
     from pyrex.custom.layered_ice import LayeredRayTracer
     ice = gen.make_ice(case["ice"])
@@ -244,6 +258,7 @@ def run_stack(case, v):
         trace_decoy(case, a, b)
         geo["traced_after_a_medium_with_the_same_boundaries"] = True
     sols = list(LayeredRayTracer(a, b, ice).solutions)
+    no_ray_twice(v, sols, **{"from": a.tolist(), "to": b.tolist()})
     top_, bot_ = float(case["ice"]["layers"][0]["range"][1]), float(case["ice"]["layers"][-1]["range"][0])
     for p in sols:
         check_chain(v, p, a, b, geo)
@@ -277,6 +292,7 @@ def run_split(case, v):
         trace_decoy(case, a, b)
         geo["traced_after_a_medium_with_the_same_boundaries"] = True
     lay = list(LayeredRayTracer(a, b, ice).solutions)
+    no_ray_twice(v, lay, **{"from": a.tolist(), "to": b.tolist()})
     for q in lay:
         check_chain(v, q, a, b, geo)
     def found_with_variants(L_, em_, slack_):
